@@ -11,6 +11,7 @@ import (
 	"testing"
 
 	"github.com/libp2p/go-libp2p/core/network"
+	rcmgr "github.com/libp2p/go-libp2p/p2p/host/resource-manager"
 	ma "github.com/multiformats/go-multiaddr"
 	"pgregory.net/rapid"
 
@@ -53,7 +54,7 @@ func drawScript(rt *rapid.T, g int) []cop {
 	n := rapid.IntRange(5, 40).Draw(rt, fmt.Sprintf("n%d", g))
 	ops := make([]cop, n)
 	for i := range ops {
-		k := rapid.SampledFrom([]string{"openConn", "openConn", "setPeer", "openStream", "openStream", "setProtocol", "setService", "reserve", "reserve", "release", "done", "done"}).Draw(rt, "k")
+		k := rapid.SampledFrom([]string{"openConn", "openConn", "setPeer", "openStream", "openStream", "setProtocol", "setProtocol", "setService", "reserve", "reserve", "release", "done", "done", "done", "gc"}).Draw(rt, "k")
 		ops[i] = cop{
 			kind: k,
 			a:    rapid.IntRange(0, 7).Draw(rt, "a"),
@@ -95,9 +96,21 @@ func TestConcurrentBoundsAndQuiescentSum(t *testing.T) {
 		w := newWorld(rt, cfg)
 		slowLimiter := rapid.SampledFrom([]int{0, 0, 3, 20}).Draw(rt, "limiterYields")
 		w.lim.yields.Store(int32(slowLimiter))
+		napEvery := rapid.SampledFrom([]int{0, 1, 1, 2, 3}).Draw(rt, "napEvery")
+		w.lim.napEvery.Store(int32(napEvery))
+		w.lim.napMicros.Store(int32(rapid.SampledFrom([]int{200, 1000, 3000}).Draw(rt, "napMicros")))
 		defer w.rm.Close()
 
 		scopes := []string{sSystem, sTransient, sPeer(0), sPeer(1), sPeer(2), sProto(0), sProto(1), sSvc(0), sSvc(1)}
+		// the per-peer sub-scopes of protocols and services (read from the manager's trace)
+		for p := 0; p < 3; p++ {
+			for j := 0; j < nProtos; j++ {
+				scopes = append(scopes, sProtoPeer(j, p))
+			}
+			for k := 0; k < nSvcs; k++ {
+				scopes = append(scopes, sSvcPeer(k, p))
+			}
+		}
 		var failure atomic.Pointer[string]
 		setFail := func(s string) { failure.CompareAndSwap(nil, &s) }
 		checkBounds := func(when string) {
@@ -129,7 +142,7 @@ func TestConcurrentBoundsAndQuiescentSum(t *testing.T) {
 		}()
 
 		holders := make([][]*cholder, G)
-		var refusals, reparent atomic.Int64
+		var refusals, reparent, gcs atomic.Int64
 		var wg sync.WaitGroup
 		for g := 0; g < G; g++ {
 			wg.Add(1)
@@ -202,7 +215,7 @@ func TestConcurrentBoundsAndQuiescentSum(t *testing.T) {
 							continue
 						}
 						reparent.Add(1)
-						h.proto, h.charges = j, []string{sPeer(h.peer), sProto(j), sSystem}
+						h.proto, h.charges = j, []string{sPeer(h.peer), sProtoPeer(j, h.peer), sProto(j), sSystem}
 					case "setService":
 						h := pick(hStream, o.a)
 						if h == nil || h.proto < 0 || h.svc >= 0 {
@@ -214,7 +227,13 @@ func TestConcurrentBoundsAndQuiescentSum(t *testing.T) {
 							continue
 						}
 						reparent.Add(1)
-						h.svc, h.charges = k, []string{sPeer(h.peer), sProto(h.proto), sSvc(k), sSystem}
+						h.svc, h.charges = k, []string{sPeer(h.peer), sProtoPeer(h.proto, h.peer), sSvcPeer(k, h.peer), sProto(h.proto), sSvc(k), sSystem}
+					case "gc":
+						// a collection of unused scopes (the manager's once-a-minute background pass) in
+						// the middle of the other goroutines' operations
+						if rcmgr.VerifGC(w.rm) {
+							gcs.Add(1)
+						}
 					case "reserve":
 						h := pick(holderKind(o.b%2), o.a)
 						if h == nil {
@@ -317,7 +336,11 @@ func TestConcurrentBoundsAndQuiescentSum(t *testing.T) {
 			kinds = append(kinds, b.String())
 		}
 		sort.Strings(kinds)
-		stats.Case(name, strings.Join(kinds, "|"), refusals.Load() > 0 && reparent.Load() > 0, fmt.Sprintf("goroutines=%d", G))
+		lbls := []string{fmt.Sprintf("goroutines=%d", G)}
+		if gcs.Load() > 0 {
+			lbls = append(lbls, "scope-collection-among-concurrent-operations")
+		}
+		stats.Case(name, strings.Join(kinds, "|"), refusals.Load() > 0 && reparent.Load() > 0, lbls...)
 		if stats.WantSample(name) {
 			stats.Sample(name, map[string]any{"goroutines": G, "scripts": kinds, "refusals": refusals.Load(), "reparentings": reparent.Load()})
 		}
